@@ -104,7 +104,9 @@ const zzC03TruthyTpl = `<p v-if="v">P-IF</p><p v-else>P-ELSE</p>` +
 	`<q v-if="no">x</q><q v-else-if="v">Q-ELIF</q><q v-else>Q-ELSE</q>` +
 	`<s v-show="v">S</s>` +
 	`<a :data-x="v">A</a>` +
-	`<b :class="{on: v}">B</b>`
+	`<b :class="{on: v}">B</b>` +
+	// the toggled name is a substring of a static class name
+	`<em class="icon-on wide" :class="{on: v, wid: v}">E</em>`
 
 // VerifC03_Truthy: the same value has the documented truthiness in v-if,
 // v-else-if, v-show, boolean attribute binding and :class objects.
@@ -131,6 +133,9 @@ func VerifC03_Truthy() {
 	zzAssert(strings.Contains(out, "display:none") == !truthy, "C03.truthy.v-show")
 	zzAssert(strings.Contains(out, "data-x=") == truthy, "C03.truthy.bound-attr")
 	zzAssert(strings.Contains(out, `class="on"`) == truthy, "C03.truthy.class-object")
+	// static names first, then the names whose values are truthy, in source order
+	zzAssert(strings.Contains(out, `<em class="icon-on wide on wid">`) == truthy, "C03.truthy.class-object-next-to-static-class")
+	zzAssert(strings.Contains(out, `<em class="icon-on wide">`) == !truthy, "C03.truthy.static-class-kept")
 }
 
 // ---- chains --------------------------------------------------------------------
@@ -495,7 +500,8 @@ func VerifC03_Paths() {
 		`<q v-if="no">x</q><q v-else-if="` + e + `">Q-ELIF</q><q v-else>Q-ELSE</q>` +
 		`<s v-show="` + e + `">S</s>` +
 		`<a :data-x="` + e + `">A</a>` +
-		`<b :class="{on: ` + e + `}">B</b>`
+		`<b :class="{on: ` + e + `}">B</b>` +
+		`<em class="icon-on wide" :class="{on: ` + e + `, wid: ` + e + `}">E</em>`
 	data := map[string]any{
 		"no": false,
 		"v":  v,
@@ -517,4 +523,5 @@ func VerifC03_Paths() {
 	zzAssert(strings.Contains(out, "display:none") == !truthy, "C03.paths.v-show")
 	zzAssert(strings.Contains(out, "data-x=") == truthy, "C03.paths.bound-attr")
 	zzAssert(strings.Contains(out, `class="on"`) == truthy, "C03.paths.class-object")
+	zzAssert(strings.Contains(out, `<em class="icon-on wide on wid">`) == truthy && strings.Contains(out, `<em class="icon-on wide">`) == !truthy, "C03.paths.class-object-next-to-static-class")
 }
